@@ -37,6 +37,15 @@ def make_case(prop, seed, i, tier):
         params = all_params()
         cls, prm = params[(i // 4) % len(params)]
         return dict(prop=prop, i=i, kind="param", cls=cls, param=prm, mseed=rng.randrange(10 ** 9))
+    if i % 40 == 18:
+        # a chain of a thousand and more tasks, never simulated: written, read, compared
+        return dict(prop=prop, i=i, kind="stage", spec=G.gen_fs_chain(rng.choice([1000, 1200])), stage="never", k=0, subproject_task=None, edit=[1])
+    if i % 20 == 6:
+        spec = G.gen_scale(rng)     # beyond the usual sizes
+        add_due_times(rng, spec)
+        stage = rng.choice(STAGES)
+        return dict(prop=prop, i=i, kind="stage", spec=spec, stage=stage, k=rng.choice([1, 3, 8, 130, 300]), subproject_task=None,
+                    edit=sorted(rng.sample(range(0, 12), rng.randint(1, 3))))
     spec = G.gen_random(rng, G.profile(facility_rich=rng.random() < 0.4, max_time=50, ensure_worker=0.9))
     add_due_times(rng, spec)
     if rng.random() < 0.12:
